@@ -739,3 +739,6 @@ def run(repo: Repo, rep: Report, tier: str) -> None:
     from .c13 import loadfile_rule
 
     loadfile_rule(repo, rep, "C04.R18")
+    from .c13 import parser_fold_rule
+
+    parser_fold_rule(repo, rep, "C04.R19")
